@@ -372,6 +372,7 @@ func (e *testEnv) serveCase(rs reqSpec, plan *faultPlan, tag string) (*respView,
 		{"refresh", i64s(int64(o.Cookie.Refresh))}, {"expire", i64s(int64(o.Cookie.Expire))}, {"groups", hxl(cfg.AllowedGroups)},
 		{"pkce", hx(cfg.PKCE)}, {"skipnonce", bs(cfg.SkipNonce)}, {"encstate", bs(o.EncodeState)}, {"csrfper", bs(o.Cookie.CSRFPerRequest)},
 		{"cookiename", hx(o.Cookie.Name)}, {"redis", bs(cfg.Redis)}, {"secret", hx(o.Cookie.Secret)}, {"whitelist", hxl(o.WhitelistDomains)},
+		{"emaildomains", hxl(o.EmailDomains)}, {"emailsfile", bs(o.AuthenticatedEmailsFile != "")},
 	}
 
 	// ---- env fields from the recording
